@@ -51,6 +51,11 @@ CLAIMS = {
          'TLC enumerates all sequences of length <= 3 over up to 9 items with every construct and grid argument (-INF..NaN positions and lengths), compositions of two constructs, and checks every = not some not, the subsequence filter identity, reverse/insert-before/remove/head/tail laws, sum/avg/min/max and cardinality-function laws on the specification; each of the 135k edges is evaluated on the real code and compared item by item with type tags.',
          'node items are opaque (positional constructs only); order and representative of distinct-values, fn:unordered and 2.0 min/max ties across int/decimal are excluded as implementation-dependent',
          'DESIGN.md section 4 C08'),
+ 'C11': ('model_checking',
+         'TLA+ specs Calendar/CalendarSweep (proleptic Gregorian day numbers, XSD 1.0/1.1 year numbering, every swept day a TLC state), Durations and DateChain (value-state machine: construct, add/subtract durations, difference, compare, adjust timezone, components) with the timeline laws as invariants; every edge replayed on the datatypes API and as XPath expressions for XSD 1.0 and 1.1; python datetime as second oracle for years 1..9999',
+         'TLC sweeps day number <-> civil date round trips over year windows on both sides of year 0 and around 100/400-year borders out to +-5M years, and explores chains of one or two operations over a grid of BCE / CE / beyond-9999 years, leap borders, 24:00:00, fractional seconds and timezones -14:00..+14:00, checking d+dur-dur=d, d1+(d2-d1)=d2, comparison = order of instants, adjust preserves the instant, end-of-month clamping; 212k edges are replayed (671k evaluations).',
+         '|year| <= 5,000,000 (32-bit TLC integers); xs:duration with both parts, gDay/gMonth/gMonthDay and overflow error codes not covered; XSD 1.0 year -0001 read as 1 BCE (a leap year), as the code\'s own todelta does',
+         'DESIGN.md section 4 C11'),
 }
 NOT_YET = 'check not built yet (construction in progress, see DESIGN.md section 5)'
 
